@@ -123,3 +123,26 @@ fn client() {
     let _ = (U0Mock, U3Mock, UNoDepsMock, UConcreteMock);
     let _ = (u_mod::UModMock::same_a, u_mod::UModMock::other, UTraitMock::one, UTraitMock::two);
 }
+
+// entraited INSIDE A FUNCTION BODY (as in tests and doc examples), next to a module-level function of the
+// same name and signature: the un-mock arm must call the block-local original, not `self::u_local`
+fn u_local(a: i32, b: i32) -> i32 {
+    a * 100 + b
+}
+fn u_local_gen<D>(deps: &D, a: i32, b: i32) -> i32 {
+    a * 100 + b
+}
+fn local_scope() {
+    #[entrait(ULocal, no_deps, mock_api = ULocalMock)]
+    fn u_local(a: i32, b: i32) -> i32 {
+        a - b
+    }
+    #[entrait(ULocalGen, mock_api = ULocalGenMock)]
+    fn u_local_gen<D>(deps: &D, a: i32, b: i32) -> i32 {
+        a - b
+    }
+    #[entrait(ULocalOnly, no_deps, mock_api = ULocalOnlyMock)]
+    fn u_local_only(a: i32) -> i32 {
+        a
+    }
+}
